@@ -5,7 +5,7 @@
 use crate::choice::explore;
 use crate::report::Report;
 use crate::source::{Grain, Menu, SourceCfg};
-use crate::subject::{execute, End, Execution, Subject};
+use crate::subject::{End, Execution, Subject};
 use crate::{hex, json, show, unhex, Budget, Tier, Value};
 
 #[derive(Clone, Debug)]
@@ -38,11 +38,13 @@ pub struct Spec {
     pub interrupts: u32,
     pub line_gated: bool,
     pub forced: Vec<(u32, u32)>,
+    /// build the reader with from_buf_reader(BufReader::with_capacity(cap, source)) after one fill
+    pub via_buf_reader: Option<usize>,
 }
 
 impl Spec {
     pub fn oneshot() -> Spec {
-        Spec { grain: Grain::OneShot, chunk: None, fault_at: None, interrupts: 0, line_gated: false, forced: vec![] }
+        Spec { grain: Grain::OneShot, chunk: None, fault_at: None, interrupts: 0, line_gated: false, forced: vec![], via_buf_reader: None }
     }
     pub fn uniform(s: usize, chunk: Option<usize>) -> Spec {
         Spec { grain: Grain::Uniform(s), chunk, ..Spec::oneshot() }
@@ -52,6 +54,10 @@ impl Spec {
     }
     pub fn fault(mut self, k: Option<usize>) -> Spec {
         self.fault_at = k;
+        self
+    }
+    pub fn via_buf_reader(mut self, cap: usize) -> Spec {
+        self.via_buf_reader = Some(cap);
         self
     }
     pub fn gated(mut self) -> Spec {
@@ -70,6 +76,7 @@ impl Spec {
             "fault_at": self.fault_at,
             "interrupts": self.interrupts,
             "line_gated": self.line_gated,
+            "via_buf_reader": self.via_buf_reader,
             "choices": self.forced.iter().map(|(c, n)| json!([c, n])).collect::<Vec<_>>(),
         })
     }
@@ -85,6 +92,7 @@ impl Spec {
             fault_at: v["fault_at"].as_u64().map(|c| c as usize),
             interrupts: v["interrupts"].as_u64().unwrap_or(0) as u32,
             line_gated: v["line_gated"].as_bool().unwrap_or(false),
+            via_buf_reader: v["via_buf_reader"].as_u64().map(|c| c as usize),
             forced: v["choices"].as_array().map(|a| a.iter().map(|c| (c[0].as_u64().unwrap() as u32, c[1].as_u64().unwrap() as u32)).collect()).unwrap_or_default(),
         }
     }
@@ -101,7 +109,7 @@ impl Spec {
             self.fault_at.map_or(String::new(), |k| format!(", source fails at offset {k}")),
             if self.interrupts > 0 { format!(", up to {} Interrupted", self.interrupts) } else { String::new() },
             if self.line_gated { ", line gated" } else { "" }
-        )
+        ) + &self.via_buf_reader.map_or(String::new(), |c| format!(", via from_buf_reader(BufReader of {c} bytes, filled once)"))
     }
 }
 
@@ -116,7 +124,7 @@ pub fn run_spec(subject: &dyn Subject, input: &[u8], spec: &Spec) -> Execution {
     let _guard = crate::abortguard::enter(&describe);
     let boundaries = if spec.line_gated { Some(subject.boundaries(input)) } else { None };
     let cfg = SourceCfg::new(input, spec.grain.clone()).fault_at(spec.fault_at).interrupts(spec.interrupts).boundaries(boundaries.as_deref());
-    execute(subject, cfg, spec.chunk, spec.forced.clone())
+    crate::subject::execute_via(subject, cfg, spec.chunk, spec.forced.clone(), spec.via_buf_reader)
 }
 
 fn replay_json(property: &str, subject: &dyn Subject, input: &[u8], spec: &Spec) -> Value {
@@ -251,6 +259,12 @@ pub fn c01(subjects: &[Box<dyn Subject>], docs: &[Doc], params: &C01Params, budg
                     c01_compare("C01", subject, input, &reference, &spec, &ex, acc);
                 }
             }
+            // construction through from_buf_reader with left-over buffered bytes
+            for (cap, s, chunk) in [(1usize, 1usize, Some(1usize)), (4, 3, Some(2)), (8, 16, None), (64, 2, Some(8))] {
+                let spec = Spec::uniform(s, chunk).via_buf_reader(cap);
+                let ex = run_spec(subject, input, &spec);
+                c01_compare("C01", subject, input, &reference, &spec, &ex, acc);
+            }
         },
         |a, b| a.merge(b),
     );
@@ -344,6 +358,7 @@ pub fn c04(subjects: &[Box<dyn Subject>], docs: &[Doc], params: &C04Params, budg
                     specs.push(Spec::uniform(s, None).fault(Some(k)));
                     specs.push(Spec::uniform(s, Some(s.max(1))).fault(Some(k)));
                 }
+                specs.push(Spec::uniform(2, Some(2)).fault(Some(k)).via_buf_reader(4));
                 for spec in &specs {
                     let ex = run_spec(subject, input, spec);
                     judge(spec, &ex, acc);
